@@ -11,7 +11,8 @@ CLAIMS = {
                      "_handle_zero_length_slice over 17 slice shapes (literal/templated/escaped/comment/blocks, loops = backward jump, "
                      "skipped branches = forward jump) x <=4 lexed elements: templated slices tile the rendering with len(raw)==slice "
                      "length, source slices in bounds and non-decreasing (reset at loop markers), every source offset covered by a token "
-                     "or placeholder, template indents balance, one LXR error per unlexable token; (5) whole PythonTemplater.process + lexer "
+                     "or placeholder, template indents balance, one LXR error per unlexable token - also after the token stream has "
+                     "passed the real Linter._lex_templated_file filter with template_blocks_indent forked over True / False / 'force'; (5) whole PythonTemplater.process + lexer "
                      "position mapping on every <=3-piece format template (literal/field pieces, empty and repeated renderings): every "
                      "source offset is covered.",
                 note="Assumes the TemplatedFile tiling invariant (C07) and that trim patterns are maximal runs (X+; checked "
@@ -22,7 +23,8 @@ CLAIMS = {
                      "token sequence of UNBOUNDED length: leaves tile tokens[start:stop] in order, each insert materialises exactly once "
                      "at its index (children's own apply = induction hypothesis, so any depth). (2) Real Sequence/Bracketed/AnyNumberOf/"
                      "OneOf/Delimited.match (+ longest_match, greedy_match, trim_to_terminator, _flush_metas) with stub children "
-                     "returning arbitrary well-formed results, all token-kind patterns over N<=4 tokens, every parse mode: the result "
+                     "returning arbitrary well-formed results, all token-kind patterns over N<=4 tokens, every parse mode (Delimited also with "
+                     "allow_trailing / optional delimiter / min_delimiters forked): the result "
                      "satisfies the well-formedness invariant I, starts at idx, leaves no code token outside a child (unmatched code is "
                      "inside an unparsable child) and materialises to exactly the input tokens. (3) root_parse wraps unmatched code in "
                      "one unparsable node and keeps every token.",
@@ -36,7 +38,8 @@ CLAIMS = {
                      "negative prefix (unbounded input length; saturating at +-3). (3) The rule model used in (2) is checked on the real "
                      "Sequence.match / Bracketed.match with stub children carrying loose and wrapped inserts (sum of inserts = rule "
                      "formula, incl. Bracketed dropping its content's loose metas). A Datalog candidate is replayed by parsing the "
-                     "dialect's own fixtures that mention the culprit segment's keywords with the real parser.",
+                     "dialect's own fixtures that mention the culprit segment's keywords with the real parser under the candidate's full flag "
+                     "assignment; a candidate no fixture reproduces makes the unit inconclusive (exit 2), not proved.",
                 note="Trusted: the rule model for AnyNumberOf/Delimited (union/repetition) and the graph walker; greedy partial matches "
                      "and reindent.py's consumer are outside. Template-block indents are covered by C01's balance oracle."),
     "C04": dict(design_ref="§3 C04", technique=SYM,
@@ -49,8 +52,9 @@ CLAIMS = {
                      "thorough also lint mode) on two inputs with max_parse_nodes a z3 integer - every comparison of the node count with "
                      "the limit in the initial parse, the pre-check and every re-parse validating a fix is solver-decided, so every "
                      "interval of limits is one path: it returns for every limit. lint_parsed over every parsed / not-parsed combination "
-                     "of the variants of a real jinja if/else file. Every other harness also treats an undeclared exception as a violation.",
-                note="Crash-freedom of the whole pipeline over arbitrary SQL is not encodable. F27 (re-parse crossing the limit) fixed. Known findings F1 (dangling refs -> "
+                     "of the variants of a real jinja if/else file. Files whose bytes do not fit the configured encoding (5 characters x 4 file "
+                     "encodings x 6 configured encodings, lint and fix) are linted or skipped, never a crash. Every other harness also treats an undeclared exception as a violation.",
+                note="Crash-freedom of the whole pipeline over arbitrary SQL is not encodable. F27 (re-parse crossing the limit), F31 (utf-16 without BOM), F32 (OptionallyDelimited) fixed. Known findings F1 (dangling refs -> "
                      "RuntimeError) and F3 (python templater AssertionError) are crashes and are reported as KNOWN-FINDING here."),
     "C05": dict(design_ref="§3 C05", technique=SYM + FORK.replace("through the real CLI on real files", "on the real kernel and, where expressible, by linting rendered SQL in 4 dialects"),
                 text="Anchored kernels only: (1) the real Rule_LT08._eval forward scan never raises for ANY sequence of <=4 (thorough 6) "
@@ -81,9 +85,11 @@ CLAIMS = {
                      "record_trace and JinjaTemplater._rectify_templated_slices on 7 template shapes (if/elif/else, for, for+if, two ifs, "
                      "nested if, set+macro) taken from the real analyzer, with EVERY raw-slice length, rendered length and rewrite delta "
                      "symbolic: each recorded (and rectified) source slice is exactly its raw slice's original range; templated slices "
-                     "contiguous.",
-                note="Known findings F3 ({a:} python) and F5 (rewritten tag revisited in a loop) excluded by pattern. JinjaAnalyzer.analyze "
-                     "(Jinja's lexer), python slice_file heuristics and other template shapes are outside."),
+                     "contiguous. (4) Whole PythonTemplater.process on every <=3-piece template, and real "
+                     "JinjaTemplater.process_with_variants on every template of <=2 (thorough 3) blocks from a 9-block pool (nested and "
+                     "chained ifs, if/elif/else, for, expression) x contexts: EVERY variant satisfies the stated clauses and its source "
+                     "slices start and end on raw-slice boundaries.",
+                note="Known findings F3 ({a:} python) and F5 (rewritten tag revisited in a loop) excluded by pattern. Templates outside the pools are outside."),
     "C08": dict(design_ref="§3 C08", technique="solver-based: z3 regex queries over the fast-path literal vs the live Jinja Environment + symlite on the gate condition",
                 text="The marker-free fast path of JinjaTemplater.process: z3 shows that no string without a match of the gate regex (read "
                      "from the AST) contains a begin-delimiter of the LIVE Environment, that newline normalisation leaves no CR, and the "
@@ -108,14 +114,21 @@ CLAIMS = {
                      "patch positions and replacement texts within a bounded number of raw slices/patches/variants: no applied edit "
                      "touches a non-literal raw slice unless it is a source edit naming exactly that slice. Plus the real "
                      "templated_slice_to_source_slice over the 17 slice shapes with symbolic lengths and an arbitrary in-bounds "
-                     "templated slice: the result is in bounds, ordered and covers the slices the input touches.",
+                     "templated slice: the result is in bounds, ordered and covers the slices the input touches. Whole fix run: for every "
+                     "jinja template lead + open tag + body + expression/comment + close tag + tail (whitespace-control variants of every "
+                     "tag, 1536 quick / 3072 thorough combinations) all rules but JJ01 leave every tag of the source unchanged and in order.",
                 note="Assumes the patch stream contract (start<=stop<=len; source patches name one non-literal slice) and C07 tiling; "
-                     "which patches real rules emit is outside the claim. Trusted: z3, the proxy layer (validated by replay)."),
+                     "which patches real rules emit is checked only on the listed template family. F33 (first-line indent source fix) fixed. "
+                     "Trusted: z3, the proxy layer (validated by replay)."),
     "C11": dict(design_ref="§3 C10/C11/C30", technique=SYM,
                 text="Same pipeline harness: the output equals the source outside the applied edit ranges for every source/patch "
                      "configuration in the bound; with nothing applied the output is the source and fix_string reports no change. Encoding: real get_encoding "
-                     "with a symbolic file length and offset of the first non-ASCII byte (autodetect reads enough of the file to see it).",
-                note="Text is opaque (RopeStr): equality means equal for every content of the base texts. Encoding layer: see evidence."),
+                     "with a symbolic file length and offset of the first non-ASCII byte (autodetect reads enough of the file to see it), also "
+                     "when the same path was examined before with arbitrary other content. Real files: 5 characters x 4 file encodings x 4 "
+                     "configured encodings x comment/string x LF/CRLF through lint_paths(fix, apply_fixes): outside the one removed space the "
+                     "bytes written back equal the bytes read (modulo CRLF -> LF).",
+                note="Text is opaque (RopeStr): equality means equal for every content of the base texts. Known finding F9: bytes that "
+                     "cannot be decoded in the configured encoding come back as escape text (excluded by pattern)."),
     "C24": dict(design_ref="§3 C24", technique=SYM + " (schedule = symbolic permutation enumerated through solver-decided forks)",
                 text="Real ParallelRunner.run/_apply, Linter.lint_paths assembly, LintedDir.add, LintingResult.as_records/stats on 3 "
                      "(thorough 4) real SQL files with a pool whose results return in EVERY completion order and with every order of "
@@ -126,18 +139,21 @@ CLAIMS = {
                 note="Narrow: OS scheduling, real worker processes and fix-mode writes are outside."),
     "C25": dict(design_ref="§3 C25", technique=SYM + " (choices solver-forked; a REAL temp tree is built per explored path)",
                 text="Real paths_from_path/_iter_files_in_path/_check_ignore_specs/_iter_config_files on a 3-level tree with a "
-                     ".sqlfluffignore present or absent at each of 4 levels (<=2, thorough 3 at once) holding one of 6 gitignore "
-                     "patterns: the selected files equal the reference (extension + every ignore file in an ancestor directory inside "
+                     "ignore source (.sqlfluffignore, or ignore_paths in a .sqlfluff) present or absent at each of 4 levels (<=2, thorough 3 at "
+                     "once) holding one of 6 gitignore patterns, optionally after the same spellings were run in ANOTHER project of the "
+                     "same layout in the same process (all function caches emptied at the start of every path): the selected files equal the reference (extension + every ignore file in an ancestor directory inside "
                      "the working directory applies) and are identical for the relative, absolute and '.' spellings.",
                 note="pathspec itself is used inside the reference to decide whether a single pattern matches a relative path. "
-                     "ignore_paths in config files, symlinks and exact-file paths are outside. F7 fixed."),
+                     "pyproject.toml, symlinks and exact-file paths are outside. F7 fixed."),
     "C26": dict(design_ref="§3 C26", technique=SYM + " (fault point, fault kind, mode, BOM, suffix solver-forked; real filesystem)",
                 text="Real LintedFile._safe_create_replace_file on a real temp directory with os/shutil/tempfile/open rebound to counting "
                      "fault proxies: for a fault at EVERY operation (stat, NamedTemporaryFile, write, flush, fsync, chmod, move, any "
                      "direct open/write) of every kind (OSError, KeyboardInterrupt, half-written buffer then OSError, process death in "
                      "a forked child) the target holds the complete old or complete new content, no temp file remains after a raised "
                      "error, success keeps mode and BOM, a suffix leaves the original untouched. persist_tree writes only when a "
-                     "fixable violation exists and the text changed, to stem+suffix+ext even when the stem already ends with the suffix.",
+                     "fixable violation exists and the text changed, to stem+suffix+ext even when the stem already ends with the suffix. Every "
+                     "route that persists fixes (lint_paths(apply_fixes), deferred LintingResult.persist_changes, CLI fix, CLI fix --check) "
+                     "x suffix x 1..2 real files: with a suffix the original is untouched and stem+suffix holds the fixed text.",
                 note="Power loss / fsync durability semantics of the kernel are outside."),
     "C27": dict(design_ref="§3 C27", technique=SYM + " (choices solver-forked; REAL config files in a temp tree per explored path)",
                 text="Real load_config_up_to_path / load_config_file_as_dict(@cache) / FluffConfig.from_root, make_child_from_path, "
@@ -168,7 +184,9 @@ CLAIMS = {
     "C30": dict(design_ref="§3 C10/C11/C30", technique=SYM,
                 text="Same pipeline harness: the slice buffer tiles the source, every slice is raw text or exactly one distinct edit, "
                      "applied edits are pairwise disjoint, a conflicting edit is absent entirely; for all positions/lengths/texts "
-                     "within <=3 patches x <=2 variants (quick) / <=4 patches (thorough).",
+                     "within <=3 patches x <=2 variants (quick) / <=4 patches (thorough). Call site: real Linter.lint_parsed -> "
+                     "LintedFile.fix_string with the per-variant patch lists forked (2 root-variant edits, optional alternate-variant edit): "
+                     "the fixed text is explained by a set of pairwise-disjoint input edits.",
                 note="Patch stream contract as in C10. The legacy un-merged route (LintedFile.source_patches is None) is outside the claim."),
     "C15": dict(design_ref="§3 C15", technique=SYM + " (finite input space enumerated through solver-decided forks)",
                 text="Real Rule_CP01._handle_segment/_get_fix (inherited by CP02-CP05) on a real keyword token for EVERY text over "
@@ -184,7 +202,7 @@ CLAIMS = {
                      "violations x ignore x warning flags x fix_even_unparsable (1 file; 2 files with PRS/fixable): a file with a "
                      "templating/parsing error - suppressed or not - is never written / stdout == stdin / API returns the input unless "
                      "fix_even_unparsable. lint_fix_parsed loop-limit: when every loop up to runaway_limit (1..3) changes the file the "
-                     "original tree is returned and every initial violation is unfixable.",
+                     "original tree is returned and every initial violation is unfixable - also when a post-phase rule still has a fix to offer.",
                 note="Runner, persist_tree/fix_string and apply_fixes are recording stubs; a counterexample is replayed with `sqlfluff fix` "
                      "on a real file built from the kind/flag vector (LT01, AM04, a parse error, an undefined jinja variable)."),
     "C19": dict(design_ref="§3 C19", technique=SYM + FORK,
@@ -202,7 +220,9 @@ CLAIMS = {
                      "its line covers it or the most recent covering range directive at or before its line is a disable; unused "
                      "warnings exactly for plain/disable directives that hid nothing; with no mask nothing is hidden. Real _parse_noqa on "
                      "every comment made of <=3 tokens, and 'noqa:' + <=4 tokens, from a token alphabet (codes, globs, names, PRS, "
-                     "commas, spaces, disable=/enable=, all): action and rule tuple equal an independent reference parser.",
+                     "commas, spaces, disable=/enable=, all): action and rule tuple equal an independent reference parser. Directive location: "
+                     "real _extract_ignore_from_comment on a real comment segment whose position marker sits on a file with independent "
+                     "symbolic newline layouts for source and rendering (K<=2, thorough 3 each): the directive carries the SOURCE line/column.",
                 note="Reference models written independently in the harness. Which comments the tree crawl yields is outside."),
     "C21": dict(design_ref="§3 C21", technique=SYM + " (finite configuration space enumerated through solver-decided forks)",
                 text="Real RuleSet.get_rulepack/_expand_rule_refs/rule_reference_map over a register of 3 stub rules with forked names, "
@@ -226,8 +246,10 @@ CLAIMS = {
                      "single-fix hoisting) over a source of unbounded length with K symbolic newline positions and arbitrary in-bounds "
                      "anchor slices: line/col lie in the file, equal the reference for the anchor's first source character, and every "
                      "start/end offset agrees with its line/col; also with one character that str.splitlines() treats as a line break "
-                     "but is not a newline.",
-                note="Assumes anchors carry in-bounds source slices (C01 kernel). That a rule anchors the right segment is outside."),
+                     "but is not a newline. Serialised output: real CLI in json / yaml / sarif on a file whose multi-line select target starts "
+                     "and ends at forked columns: the three outputs list the same violations at the same start and end positions.",
+                note="Assumes anchors carry in-bounds source slices (C01 kernel). That a rule anchors the right segment, and the "
+                     "github-annotation / human formats, are outside."),
     "C31": dict(design_ref="§3 C31", technique=SYM,
                 text="For texts with exactly K newlines (K<=6 quick, <=12 thorough) of UNBOUNDED length and every offset, the real "
                      "iter_indices_of_newlines + get_line_pos_of_char_pos (source and templated tables) and infer_next_position equal "
@@ -252,10 +274,13 @@ CLAIMS = {
     "C34": dict(design_ref="§3 C34", technique=SYM,
                 text="load_raw_file_and_config with symbolic file size and byte limit, large_file_check with symbolic length and char "
                      "limit (both unbounded), the root config carrying an independent symbolic limit: skipped iff the FILE's limit != 0 "
-                     "and size > that limit, a skipped file is never opened/processed. Real "
+                     "and size > that limit whatever any OTHER setting the code consults holds (each an independent symbolic integer), a "
+                     "skipped file is never opened/processed. Real "
                      "SequentialRunner/ParallelRunner (main-process and worker-side skip paths) over every oversized subset of 3 files: "
                      "skipped files are counted once and never linted. cli._paths_fix: exit 1 on skip only with large_file_skip_fail.",
-                note="os.path.getsize, config and open are stubs; the lint command's inline tail is represented by the same two lines."),
+                note="os.path.getsize, config and open are stubs; the lint command's inline tail is represented by the same two lines. "
+                     "c34.limit_routes runs both limits through the real lint_paths on real files (lint/fix, 1-2 workers); known finding "
+                     "F34: a char-limit skip is not counted."),
 }
 
 NOT_APPLICABLE = {
